@@ -35,6 +35,9 @@ std::string HEXExpression::hex(Integer val, Integer n)
   Integer s = 0;
   unsigned char len = 0;
   char buf[2 * sizeof(Integer)];
+  /* no more digits than the buffer holds: the count below must not overflow */
+  if (n > Integer(sizeof(buf)))
+    n = Integer(sizeof(buf));
 
   for (int d = 4 * (sizeof(buf) - 1); d > 0; d -= 4)
   {
